@@ -83,15 +83,19 @@ type lset struct {
 	top  bool              // "all locks": identity of meet (not yet reached)
 	m    map[string]bool   // class → held exclusively
 	inst map[string]string // class → instance key of the lock expression, when acquired in this function on every path ("" otherwise)
+	sec  map[string]int    // class → 1-based index into lsFunc.secs of the critical section (acquisition site) that holds it; 0/absent: inherited from the caller or different on different paths (atomic.go)
 }
 
 func (a lset) clone() lset {
-	c := lset{top: a.top, m: map[string]bool{}, inst: map[string]string{}}
+	c := lset{top: a.top, m: map[string]bool{}, inst: map[string]string{}, sec: map[string]int{}}
 	for k, v := range a.m {
 		c.m[k] = v
 	}
 	for k, v := range a.inst {
 		c.inst[k] = v
+	}
+	for k, v := range a.sec {
+		c.sec[k] = v
 	}
 	return c
 }
@@ -103,12 +107,15 @@ func meet(a, b lset) lset {
 	if b.top {
 		return a.clone()
 	}
-	c := lset{m: map[string]bool{}, inst: map[string]string{}}
+	c := lset{m: map[string]bool{}, inst: map[string]string{}, sec: map[string]int{}}
 	for k, v := range a.m {
 		if w, ok := b.m[k]; ok {
 			c.m[k] = v && w
 			if a.inst[k] != "" && a.inst[k] == b.inst[k] {
 				c.inst[k] = a.inst[k]
+			}
+			if a.sec[k] != 0 && a.sec[k] == b.sec[k] {
+				c.sec[k] = a.sec[k]
 			}
 		}
 	}
@@ -152,6 +159,7 @@ type lsAccess struct {
 	pos   token.Pos
 	fresh bool
 	ctor  bool // object allocated in this function, so far only used as method receiver (constructor context)
+	seq   int  // position in the walk order of the function (atomic.go)
 }
 
 type lsCall struct {
@@ -160,6 +168,8 @@ type lsCall struct {
 	isGo   bool // `go f()`: the callee runs on a goroutine of its own
 	ctor   bool // receiver is an object under construction in the caller: not a constraint on the callee's entry set
 	site   string
+	seq    int  // position in the walk order of the function (atomic.go)
+	dfr    bool // deferred call
 }
 
 type lsFunc struct {
@@ -179,6 +189,10 @@ type lsFunc struct {
 	contract string  // caller-locked method: the lock class its callers must hold (shared)
 	parent   *lsFunc // for function literals
 	litKind  string  // go / defer / cb
+	seq      int          // walk-order counter (atomic.go)
+	secs     []*lsSection // critical sections opened in this function, in walk order (atomic.go)
+	exts     []lsExt      // effects that leave the module: connection / file calls, channel operations (atomic.go)
+	secNotes []string     // lock operations the section analysis cannot classify (atomic.go)
 }
 
 type lsAnalysis struct {
@@ -225,6 +239,7 @@ type lsWalker struct {
 	dead         bool
 	ctx          []*jumpCtx
 	pendingLabel string
+	loopDepth    int
 }
 
 func (w *lsWalker) typeOf(e ast.Expr) types.Type {
@@ -328,7 +343,8 @@ func (w *lsWalker) record(field string, write bool, pos token.Pos, fresh bool, a
 	if atomic {
 		h.m["sync/atomic"] = true
 	}
-	w.fn.accesses = append(w.fn.accesses, lsAccess{field: field, write: write, held: h, pos: pos, fresh: fresh})
+	w.fn.seq++
+	w.fn.accesses = append(w.fn.accesses, lsAccess{field: field, write: write, held: h, pos: pos, fresh: fresh, seq: w.fn.seq})
 }
 
 func (w *lsWalker) readAll(rec string, pos token.Pos) {
@@ -442,6 +458,9 @@ func (w *lsWalker) expr(e ast.Expr, mode int) {
 			return
 		}
 		w.expr(x.X, mRead)
+		if x.Op == token.ARROW {
+			w.ext("chan recv", x.Pos())
+		}
 	case *ast.BinaryExpr:
 		w.expr(x.X, mRead)
 		w.expr(x.Y, mRead)
@@ -497,8 +516,12 @@ func (w *lsWalker) addCall(callee string, empty bool, isGo bool, pos token.Pos) 
 	h := w.cur.clone()
 	if empty {
 		h = lset{m: map[string]bool{}}
+		if !isGo {
+			h.sec = w.cur.clone().sec // a deferred call still runs inside the sections that are released by defer (atomic.go looks at this only)
+		}
 	}
-	w.fn.calls = append(w.fn.calls, lsCall{callee: callee, held: h, isGo: isGo, site: site(pos)})
+	w.fn.seq++
+	w.fn.calls = append(w.fn.calls, lsCall{callee: callee, held: h, isGo: isGo, site: site(pos), seq: w.fn.seq, dfr: empty && !isGo})
 }
 
 var fmtMethods = []string{"Error", "Format", "GoString", "String"}
@@ -587,6 +610,9 @@ func (w *lsWalker) call(c *ast.CallExpr, kind string) {
 			for _, a := range c.Args {
 				w.expr(a, mRead)
 			}
+			if b.Name() == "close" {
+				w.ext("chan close", c.Pos())
+			}
 		}
 		return
 	}
@@ -594,6 +620,9 @@ func (w *lsWalker) call(c *ast.CallExpr, kind string) {
 	// sync lock operations
 	if se, ok := c.Fun.(*ast.SelectorExpr); ok && fn != nil && fn.Pkg() != nil && fn.Pkg().Path() == "sync" {
 		name := se.Sel.Name
+		if (name == "TryLock" || name == "TryRLock") && !w.dead {
+			w.fn.secNotes = append(w.fn.secNotes, fmt.Sprintf("%s: %s outside the recognised form `if [!]x.%s() {`", site(c.Pos()), name, name))
+		}
 		if name == "Lock" || name == "RLock" || name == "Unlock" || name == "RUnlock" {
 			if _, isSel := w.info.Selections[se]; isSel {
 				w.expr(se.X, mRead)
@@ -606,14 +635,17 @@ func (w *lsWalker) call(c *ast.CallExpr, kind string) {
 				}
 				switch name {
 				case "Lock":
+					w.openSection(class, true, false, c.Pos())
 					w.cur.m[class] = true
 					w.cur.inst[class] = w.instKey(lockBase(se.X))
 				case "RLock":
+					w.openSection(class, false, false, c.Pos())
 					if _, held := w.cur.m[class]; !held {
 						w.cur.m[class] = false
 						w.cur.inst[class] = w.instKey(lockBase(se.X))
 					}
 				default:
+					w.closeSection(class, deferred, goStmt, c.Pos())
 					if deferred {
 						return // held until the function returns
 					}
@@ -622,6 +654,7 @@ func (w *lsWalker) call(c *ast.CallExpr, kind string) {
 					}
 					delete(w.cur.m, class)
 					delete(w.cur.inst, class)
+					delete(w.cur.sec, class)
 				}
 				return
 			}
@@ -680,6 +713,9 @@ func (w *lsWalker) call(c *ast.CallExpr, kind string) {
 		}
 		return
 	}
+	if n := extEffectName(fn); n != "" && !goStmt {
+		w.ext(n, c.Pos())
+	}
 	sig := fn.Type().(*types.Signature)
 	// interface method declared in the module: every implementing module method
 	if r := sig.Recv(); r != nil {
@@ -700,6 +736,7 @@ func (w *lsWalker) call(c *ast.CallExpr, kind string) {
 	if fn.Pkg() != nil && w.an.inModule[fn.Pkg().Path()] {
 		return
 	}
+
 	np := sig.Params().Len()
 	for i, a := range c.Args {
 		var pt types.Type
@@ -780,10 +817,14 @@ func (w *lsWalker) clauses(bodies [][]ast.Stmt, pre []func(), implicitSkip bool,
 func (w *lsWalker) loop(label string, head func(), body []ast.Stmt, post ast.Stmt, hasExitCond bool) {
 	entry, entryDead := w.cur.clone(), w.dead
 	na, nc := len(w.fn.accesses), len(w.fn.calls)
+	ns, ne, nn, sq := len(w.fn.secs), len(w.fn.exts), len(w.fn.secNotes), w.fn.seq
+	w.loopDepth++
+	defer func() { w.loopDepth-- }()
 	headSet := entry.clone()
 	var c *jumpCtx
 	for iter := 0; iter < 8; iter++ {
 		w.fn.accesses, w.fn.calls = w.fn.accesses[:na], w.fn.calls[:nc]
+		w.fn.secs, w.fn.exts, w.fn.secNotes, w.fn.seq = w.fn.secs[:ns], w.fn.exts[:ne], w.fn.secNotes[:nn], sq
 		c = &jumpCtx{isLoop: true, label: label}
 		w.ctx = append(w.ctx, c)
 		w.cur, w.dead = headSet.clone(), entryDead
@@ -844,6 +885,7 @@ func (w *lsWalker) stmt(s ast.Stmt) {
 	case *ast.SendStmt:
 		w.expr(x.Chan, mRead)
 		w.expr(x.Value, mRead)
+		w.ext("chan send", x.Pos())
 	case *ast.DeclStmt:
 		if gd, ok := x.Decl.(*ast.GenDecl); ok {
 			for _, sp := range gd.Specs {
@@ -886,6 +928,9 @@ func (w *lsWalker) stmt(s ast.Stmt) {
 		w.dead = true
 	case *ast.IfStmt:
 		w.stmt(x.Init)
+		if w.tryLockIf(x) {
+			return
+		}
 		w.expr(x.Cond, mRead)
 		bodies := [][]ast.Stmt{x.Body.List}
 		skip := true
@@ -1514,6 +1559,7 @@ func locksetFacts(pkgs []*packages.Package, b *strings.Builder) {
 		for _, k := range an.order {
 			f := an.funcs[k]
 			f.accesses, f.calls = nil, nil
+			f.secs, f.exts, f.secNotes, f.seq = nil, nil, nil, 0
 			for k := range an.otherRow {
 				if strings.HasPrefix(k, f.name+"|") {
 					delete(an.otherRow, k)
@@ -1631,6 +1677,7 @@ func locksetFacts(pkgs []*packages.Package, b *strings.Builder) {
 		}
 	}
 
+	lastLockset = an // atomic.go reads the sections recorded by the final walk
 	// ---------------- output
 	// Names are kept for the reader; the tie computes on the numeric ids (kernel evaluation of string equality is slow).
 	lockIDs := map[string]int{}
